@@ -373,7 +373,8 @@ def check_callers(rep, prog):
     calls = [ev for ev in I.events if ev.kind == "call" and ev["name"] == "set_operations:set_intersect_merge_np"]
     for ev in calls:
         a = ev["args"]
-        ok = len(a) == 2 and a[0] == tm.param("base_rowids") and a[1].op == "dval"
+        base = tm.param(fi.params()[3]) if len(fi.params()) > 3 else None  # the running row ids (4th parameter, whatever its name)
+        ok = len(a) == 2 and base is not None and ((a[0] == base and a[1].op == "dval") or (a[1] == base and a[0].op == "dval"))  # intersection is symmetric
         n += 1
         rep.check(ok, "R-C08-g", "%s@%d" % (fi.fq, ev.line), "walk intersects the running row ids with the entry's row ids", "", "arguments are %s" % [tm.show(x)[:40] for x in a])
     rep.floor("R-C08-g", 2, len(calls))
